@@ -200,7 +200,11 @@ class DiskCache:
             self._cache.delete(key + self._HMAC_SUFFIX)
             return False, None
 
-        if not hmac.compare_digest(stored_hmac, expected_hmac):
+        try:
+            hmac_matches = hmac.compare_digest(stored_hmac, expected_hmac)
+        except TypeError:
+            hmac_matches = False  # compare_digest rejects non-ASCII text: such a signature cannot be ours
+        if not hmac_matches:
             logger.warning(
                 "Cache HMAC mismatch for key %s — possible tampering, evicting",
                 key,
